@@ -303,6 +303,14 @@ where
                 let st = world.write_storage::<T>();
                 json!({"cls":"read","res": optjs(st.get(e))})
             }
+            "gget" => {
+                let st = world.read_storage::<T>();
+                json!({"cls":"read","res": optjs(specs::storage::GenericReadStorage::get(&st, e))})
+            }
+            "gwget" => {
+                let st = world.write_storage::<T>();
+                json!({"cls":"read","res": optjs(specs::storage::GenericReadStorage::get(&&st, e))})
+            }
             "contains" => {
                 let st = world.read_storage::<T>();
                 json!({"cls":"read","b": st.contains(e)})
@@ -383,6 +391,20 @@ where
             "get_mut" => {
                 let mut st = world.write_storage::<T>();
                 let r = match st.get_mut(e) {
+                    Some(mut a) => {
+                        let before = (&*a).js();
+                        if wval >= 0 {
+                            write(a.access_mut());
+                        }
+                        before
+                    }
+                    None => absent(),
+                };
+                json!({"cls":"write","res": r})
+            }
+            "gget_mut" => {
+                let mut st = world.write_storage::<T>();
+                let r = match GenericWriteStorage::get_mut(&mut st, e) {
                     Some(mut a) => {
                         let before = (&*a).js();
                         if wval >= 0 {
